@@ -212,10 +212,13 @@ def shape_list(tier):
     # quantifiers
     for qn in ("exists", "forall"):
         for body in (XY[0], XY[1], ("and", XY[1], Y[0]), ("or", XY[0], Y[0]), Y[0], ("not", XY[0])):
-            add((qn, y, body), body in (XY[0], XY[1], Y[0]))
+            add((qn, y, body), body in (XY[0], XY[1], Y[0]) or (qn == "forall" and body == ("or", XY[0], Y[0])))
             add(("not", (qn, y, body)), body in (XY[1],))
             add(("and", X[1], (qn, y, body)), body in (XY[0],))
         add((qn, y, ("cmp", "<=", ("a", "z"), ("a", y))), False)  # free variable z only under the quantifier
+        # a disjunction under the quantifier whose sides mention different variables (one side does not bind x)
+        add((qn, y, ("or", X[0], Y[0])), True)
+        add((qn, y, ("or", Y[0], XY[1])), qn == "forall")
     add(("exists", "w", ("has", x, "w")))
     add(("forall", "w", ("has", x, "w")))
     add(("and", ("has", x, "w"), ("cmp", ">", ("a", x), ("lit", 0))), False)
